@@ -199,10 +199,11 @@ def run(ctx: Ctx) -> Result:
     def fits(n): return len(ref_i2b(n)) <= cfg.max_item_size
     def fdiv(a, b): return a // b if b else None
     def fmod(a, b): return a % b if b else None
-    OPS = {'ADD_INTS': lambda a, b: {a + b}, 'SUBTRACT_INTS': lambda a, b: {a - b, b - a}, 'MULT_INTS': lambda a, b: {a * b},
-           'DIV_INTS': lambda a, b: {fdiv(a, b), fdiv(b, a)}, 'MOD_INTS': lambda a, b: {fmod(a, b), fmod(b, a)},
-           'DIV_INT': lambda a, b: {fdiv(a, b), fdiv(b, a)}, 'MOD_INT': lambda a, b: {fmod(a, b), fmod(b, a)},
-           'LESS': lambda a, b: {a < b, b < a}, 'LESS_OR_EQUAL': lambda a, b: {a <= b, b <= a}}
+    # operand order as documented: a is pushed first, b last (b is the top item - "the first" - or the immediate of DIV_INT / MOD_INT)
+    OPS = {'ADD_INTS': lambda a, b: {a + b}, 'SUBTRACT_INTS': lambda a, b: {b - a}, 'MULT_INTS': lambda a, b: {a * b},
+           'DIV_INTS': lambda a, b: {fdiv(b, a)}, 'MOD_INTS': lambda a, b: {fmod(b, a)},
+           'DIV_INT': lambda a, b: {fdiv(a, b)}, 'MOD_INT': lambda a, b: {fmod(a, b)},
+           'LESS': lambda a, b: {b < a}, 'LESS_OR_EQUAL': lambda a, b: {b <= a}}
     run_lines, run_outs = [], []
     nops = 0
     for it in range(ctx.n(1500, 30000)):
